@@ -4,6 +4,7 @@
     (b) the specification computed directly from the list of projected
         measurements by filtering (prop_ok). *)
 From Perf Require Import Base.Bytes Base.Sx Base.B64 Base.SxF Model.BenchTab.
+From Perf Require Corr.PipeC14.
 
 Record ocell_obs := mkOC {
   o_r : N; o_c : N; o_sample : list b64; o_has_base : bool;
@@ -235,8 +236,14 @@ Section WithCase.
   Definition prop_ok : bool := all2 tab_matches expected_spec (k_obs c) && k_bin_csv c && k_bin_text c.
 End WithCase.
 
+(** cases of the second kind (tag 7: flag strings + file texts against the
+    composed model, Corr/PipeC14.v) are evaluated there; everything else as before *)
 Definition run_case (s : sx) : N :=
-  match decode s with
-  | Some c => code_of (corr_ok c) (prop_ok c)
-  | None => code_undecodable
+  match s with
+  | SL (SZ 7 :: _) => PipeC14.run_case s
+  | _ =>
+      match decode s with
+      | Some c => code_of (corr_ok c) (prop_ok c)
+      | None => code_undecodable
+      end
   end.
